@@ -265,6 +265,11 @@ def render(pid, root, prog):
                 b = Block("{", "}", cur, "block")
                 cur.items.append(b)
                 cur = b
+            if op in ("AsScope", "AsMutScope") and s["a"] == "from":
+                cur.items.append(Line("let mut %s: %s = (%s).into();" % (
+                    e, "&bump_scope::BumpScope" if op == "AsScope" else "&mut bump_scope::BumpScope",
+                    ("&" if op == "AsScope" else "&mut ") + x)))
+                continue
             rhs = {"RefShr": "&" + x, "RefMut": "&mut " + x, "AsScope": x + ".as_scope()",
                    "AsMutScope": x + ".as_mut_scope()", "Guard": x + ".scope_guard()", "GScope": x + ".scope()",
                    "Claim": x + ".claim()", "ByValue": x + ".by_value()", "PoolGet": x + ".get()"}[op]
@@ -272,8 +277,12 @@ def render(pid, root, prog):
         elif op in ("Scoped", "Aligned"):
             n += 2
             kinds[n - 1], kinds[n] = "closure", "smut"
-            call = {"scoped": "scoped", "scoped_aligned": "scoped_aligned::<8, _>", "": "aligned::<8, _>"}[s["a"] if op == "Scoped" else ""]
-            b = Block("e%d.%s(|mut e%d| {" % (h, call, n), "});", cur, "closure")
+            call = {"scoped": "scoped", "scoped_aligned": "scoped_aligned::<8, _>", "scoped_trait": "scoped", "": "aligned::<8, _>"}[s["a"] if op == "Scoped" else ""]
+            if op == "Scoped" and s["a"] == "scoped_trait":
+                recv = ("&mut e%d" if kinds[h] in OWNED else "&mut *e%d") % h
+                b = Block("%sBumpAllocator::scoped(%s, |mut e%d| {" % (T, recv, n), "});", cur, "closure")
+            else:
+                b = Block("e%d.%s(|mut e%d| {" % (h, call, n), "});", cur, "closure")
             cur.items.append(b)
             cur = b
         elif op == "Produce":
@@ -284,7 +293,12 @@ def render(pid, root, prog):
             val = {"line": ln, "expr": producer_expr(s["a"], s["b"], h, kinds[h]), "prod": cur, "home": cur,
                    "hoisted": False}
         elif op in ("Reset", "PoolReset"):
-            cur.items.append(Line("e%d.%s();" % (h, s["a"])))
+            if s["a"] == "replace":
+                cur.items.append(Line("%se%d = bump_scope::Bump::new();" % ("" if kinds[h] == "bump" else "*", h)))
+            elif s["a"] == "bumps_clear":
+                cur.items.append(Line("e%d.bumps().clear();" % h))
+            else:
+                cur.items.append(Line("e%d.%s();" % (h, s["a"])))
         elif op == "GReset":
             cur.items.append(Line("e%d.reset();" % h))
         elif op == "Drop":
